@@ -183,17 +183,32 @@ def ops19 : List (String × Op) := [
       let s ← field j "shape" >>= asNats
       .ok (reply (decide (Pre_tensor ds s)) (validate_tensor ds s))
     | "sptensor" => do
-      let a ← subsArgs j "subs"
+      -- the extents as written (integers: zero and negative ones can be asked for)
+      let shape ← field j "shape" >>= asInts
+      let subs ← field j "subs" >>= asIntMat
+      let nvals ← match fieldOpt j "nvals" with
+        | none => pure subs.length
+        | some v => asNat v
+      let width := match subs with | [] => shape.length | r :: _ => r.length
+      let a : SubsArgsI := { shape, width, subs, nvals }
       let agg ← field j "agg" >>= asBool
-      .ok (reply (decide (Pre_subs a)) (if agg then validate_fromAggregator a else validate_sptensor a))
+      .ok (reply (decide (Pre_subsI a)) (if agg then validate_fromAggregatorI a else validate_sptensorI a))
     | "ktensor" => do
       let fs ← field j "fshapes" >>= asMatSs
       let nw ← optNatF j "nw"
-      .ok (reply (decide (Pre_ktensor fs nw)) (validate_ktensor fs nw))
+      -- element types other than float are named in `fdtype` / `wdtype`
+      let ff := (fieldOpt j "fdtype").isNone
+      let wf := (fieldOpt j "wdtype").isNone
+      .ok (reply (decide (Pre_ktensorTyped fs nw ff wf)) (validate_ktensorTyped fs nw ff wf))
     | "ttensor" => do
       let core ← field j "core" >>= asNats
       let fs ← field j "fshapes" >>= asMatSs
-      .ok (reply (decide (Pre_ttensor core fs)) (validate_ttensor core fs))
+      match fieldOpt j "omit" with
+      | some (.str o) =>
+        let hasCore := !(o == "core" || o == "both")
+        let hasFactors := !(o == "factors" || o == "both")
+        .ok (reply (decide (Pre_ttensorGiven hasCore hasFactors)) (validate_ttensorGiven hasCore hasFactors))
+      | _ => .ok (reply (decide (Pre_ttensor core fs)) (validate_ttensor core fs))
     | "sumtensor" => do
       let shapes ← field j "shapes" >>= asNatMat
       .ok (reply (decide (Pre_sumtensor shapes)) (validate_sumtensor shapes))
@@ -258,7 +273,13 @@ def ops19 : List (String × Op) := [
         | .ok 2 => .v2
         | _ => .other
     let a : TtsvArgs := { shape, veclen, skip, version }
-    .ok (reply (decide (Pre_ttsv a)) (validate_ttsv a))),
+    match fieldOpt j "vshape" with
+    | some v => do
+      -- the multiplicand by shape and kind (ndarray / nested list)
+      let vshape ← asNats v
+      let isList ← field j "vlist" >>= asBool
+      .ok (reply (decide (Pre_ttsvM a vshape isList)) (validate_ttsvM a vshape isList))
+    | none => .ok (reply (decide (Pre_ttsv a)) (validate_ttsv a))),
   ("c19_symmetry", fun j => do
     let shape ← field j "shape" >>= asNats
     let fn ← field j "fn" >>= asStr
@@ -402,6 +423,18 @@ def ops19 : List (String × Op) := [
       let a : GcpArgs := { shape, rank, sparse := data == "sparse", objectiveOk := !obj2, solver, mask, init }
       .ok (reply (decide (Pre_gcp a)) (validate_gcp a))
     | _ => .error s!"unknown algorithm {alg}"),
+  ("c19_sp_assign", fun j => do
+    let rhs ← field j "rhs" >>= asNats
+    let key ← field j "key" >>= asList (fun (e : Json) => do
+      let t ← field e "t" >>= asStr
+      if t == "int" then pure KeyEntry.int
+      else if t == "slice" then do let b ← field e "stop" >>= asBool; pure (KeyEntry.slice b)
+      else do let n ← field e "len" >>= asNat; pure (KeyEntry.list n))
+    .ok (replyInPlace (decide (Pre_spAssign key rhs)) (validate_spAssign key rhs))),
+  ("c19_subdims", fun j => do
+    let n ← field j "N" >>= asNat
+    let len ← field j "len" >>= asNat
+    .ok (reply (decide (Pre_subdims n len)) (validate_subdims n len))),
   ("c19_import_data", fun j => do
     let k ← field j "k" >>= asStr
     let a : ImportArgs ← match k with
